@@ -1157,9 +1157,11 @@ func (c *compiler) doOptimize(in []instruction) []instruction {
 		case n < len(in)-1 && in[n].Code == codePush && in[n+1].Code == codeAdd:
 			out = append(out, instruction{Pos: in[n+1].Pos, Code: codeIncDec, A: in[n].A})
 			n += 1
-		case n < len(in)-1 && in[n].Code == codePush && in[n+1].Code == codeSub && in[n].A != 0:
-			// x - c is x + (-c) for every constant but 0: the integer 0 has no negative,
-			// and -0.0 - 0 is -0.0 where -0.0 + 0 is +0.0, so x - 0 stays a subtraction
+		case n < len(in)-1 && in[n].Code == codePush && in[n+1].Code == codeSub && in[n].A != -in[n].A:
+			// x - c is x + (-c) for every constant that has a negative: the integer 0 has
+			// none (and -0.0 - 0 is -0.0 where -0.0 + 0 is +0.0), and neither has the
+			// smallest integer, whose negation overflows back to itself, so x - 0 and
+			// x - -9223372036854775808 stay subtractions
 			out = append(out, instruction{Pos: in[n+1].Pos, Code: codeIncDec, A: -in[n].A})
 			n += 1
 
